@@ -110,10 +110,11 @@ class Product:
         self._actions()
 
     def cases_of(self, n):
+        from .explore import over_budget
         obj, kind, op, iargs = n.desc
         if kind == 'Input':
             return list(range(iargs[1]))
-        return KINDS[kind].cases(self.rt, obj, op, iargs)
+        return [c for c in KINDS[kind].cases(self.rt, obj, op, iargs) if not over_budget(n, c)]
 
     # ---- mover analysis ------------------------------------------------------------------
     def _classify(self):
@@ -507,6 +508,7 @@ class Encoding:
         # bad-state predicate over `pre`
         done = []
         fails = []
+        fails_all = []
         for t in p.threads:
             aut = p.auts[t]
             pcv = f'$pc.{t}'
@@ -520,6 +522,7 @@ class Encoding:
             known_tags = [e_['tag'] for e_ in self.exclude if e_.get('kind') == 'fail']
             for i, st in aut.terminal.items():
                 if self.scn.is_fail(t, st):
+                    fails_all.append(pre[pcv] == bv(i, pw))
                     if any(str(st[1]).startswith(tg) for tg in known_tags):
                         continue
                     fails.append(pre[pcv] == bv(i, pw))
@@ -548,6 +551,7 @@ class Encoding:
                 conj.append(z3.Or([pre[pcv] == bv(i, pw) for i in ids]) if ids else z3.BoolVal(False))
             self.deadlock = z3.And(self.deadlock, z3.Not(z3.And(conj)))
         self.fail = z3.Or(fails) if fails else z3.BoolVal(False)
+        self.fail_all = z3.Or(fails_all) if fails_all else z3.BoolVal(False)
         self.overflow = pre['$overflow'] == 1
         inv = self.scn.invariant(self.env, SymState(pre, self.env)) if hasattr(self.scn, 'invariant') else None
         self.inv_broken = z3.Not(inv) if inv is not None else z3.BoolVal(False)
